@@ -261,7 +261,8 @@ func (check typecheck) binaryExpr(n *node) error {
 			return n.cfgErrorf("invalid operation: division by zero")
 		}
 	case aQuo:
-		if zeroConst(c1) {
+		// A floating-point or complex variable may be divided by a constant zero.
+		if t0 := c0.typ.TypeOf(); zeroConst(c1) && (c0.rval.IsValid() || !(isFloat(t0) || isComplex(t0))) {
 			return n.cfgErrorf("invalid operation: division by zero")
 		}
 		if c0.rval.IsValid() && c1.rval.IsValid() {
@@ -271,10 +272,17 @@ func (check typecheck) binaryExpr(n *node) error {
 	}
 
 	// Ensure that if values are untyped, both are converted to the same type
-	_ = check.convertUntyped(c0, c1.typ)
-	_ = check.convertUntyped(c1, c0.typ)
+	err0 := check.convertUntyped(c0, c1.typ)
+	err1 := check.convertUntyped(c1, c0.typ)
 
 	if isComparisonAction(a) {
+		// A constant compared with a value of a basic type must be representable in that type.
+		if err0 != nil && isTypedBasic(c1.typ) {
+			return err0
+		}
+		if err1 != nil && isTypedBasic(c0.typ) {
+			return err1
+		}
 		return check.comparison(n)
 	}
 
@@ -287,8 +295,46 @@ func (check typecheck) binaryExpr(n *node) error {
 	return check.op(binaryOpPredicates, a, n, c0, t0)
 }
 
+// isTypedBasic returns true for a typed (not untyped) boolean, numeric or string type.
+func isTypedBasic(t *itype) bool {
+	if t == nil || t.untyped || isInterface(t) {
+		return false
+	}
+	rt := t.TypeOf()
+	return isNumber(rt) || isString(rt) || isBoolean(rt)
+}
+
+// logicalExpr type checks a && or || expression: both operands are booleans of the same type.
+func (check typecheck) logicalExpr(n *node) error {
+	c0, c1 := n.child[0], n.child[1]
+	if c0.typ == nil || c1.typ == nil {
+		return nil
+	}
+	for _, c := range []*node{c0, c1} {
+		if !isBoolean(c.typ.TypeOf()) {
+			return n.cfgErrorf("invalid operation: operator %v not defined on %s", n.action, c.typ.id())
+		}
+	}
+	if !c0.typ.untyped && !c1.typ.untyped && !c0.typ.equals(c1.typ) {
+		return n.cfgErrorf("invalid operation: mismatched types %s and %s", c0.typ.id(), c1.typ.id())
+	}
+	return nil
+}
+
 func zeroConst(n *node) bool {
-	return n.typ.untyped && constant.Sign(n.rval.Interface().(constant.Value)) == 0
+	if !n.typ.untyped || !n.rval.IsValid() {
+		return false
+	}
+	c, ok := n.rval.Interface().(constant.Value)
+	if !ok {
+		// Not a numeric constant (i.e. an untyped boolean).
+		return false
+	}
+	switch c.Kind() {
+	case constant.Int, constant.Float, constant.Complex:
+		return constant.Sign(c) == 0
+	}
+	return false
 }
 
 func (check typecheck) index(n *node, max int) error {
@@ -1079,6 +1125,10 @@ func (check typecheck) convertUntyped(n *node, typ *itype) error {
 		n.typ = typ
 		return nil
 	case isNumber(ttyp) || isString(ttyp) || isBoolean(ttyp):
+		if isBoolean(ntyp) != isBoolean(ttyp) {
+			// A boolean constant is only convertible to a boolean type, and only boolean constants are.
+			return convErr
+		}
 		ityp = typ
 		rtyp = ttyp
 	case isInterface(typ):
